@@ -1,77 +1,133 @@
 ----------------------------- MODULE Declarator -----------------------------
-(* C08: declarators.  A declarator is, semantically, the sequence `d` of type
-   derivations read from the identifier outwards ("x is a pointer to an array
-   of 3 pointers to functions returning int" = <<P, A3, P, F>>); that sequence
-   IS the type (Level A).  Render(d) prints it in C's inside-out syntax with
-   the parentheses precedence requires.  Level I is chibicc's parser
-   (parse.c: pointers / declarator / type_suffix / array_dimensions): pointers
-   are applied first, a parenthesised inner declarator is skipped with a dummy
-   type, the suffix is applied, then the inner declarator is re-parsed on the
-   result.  One action per derivation added; invariant: parsing the rendering
-   gives back the type, for named and abstract declarators.                  *)
+(* C08: declarators.
+
+   Level A.  A declarator is a piece of SYNTAX, and several syntaxes denote
+   the same type.  The state `s` is the parse tree of a declarator of the
+   grammar (C11 6.7.6, 6.7.7)
+        declarator = "*" declarator | direct
+        direct     = x | "(" declarator ")" | direct "[n]" | direct "(void)"
+   written as the sequence of productions applied from the identifier
+   outwards: "P" (a pointer prefix), "A2"/"A3"/"F" (an array / function
+   suffix) and "G" (a pair of grouping parentheses).  A suffix can only be
+   applied to a `direct`, i.e. not immediately after "P" (WellFormed): the
+   parentheses precedence requires are explicit "G" steps, and every other
+   "G" - around the identifier, around a suffix, doubled - is redundant but
+   valid.  6.7.6.1-3 give the meaning: each production adds one derivation
+   next to the base type, parentheses add nothing, so the type is
+   Type(s) = s without "G" ("x is a pointer to an array of 3 pointers to
+   functions returning int" = <<P, A3, P, F>>).  The abstract declarator of
+   the same tree is the rendering without the identifier; it exists unless
+   the innermost production is "G" ("()" is a parameter list, not a group).
+   An abstract declarator whose innermost production is "F" begins with a
+   parameter list: "(void)", "* (void)", "( * (void) )[3]".
+
+   Level I is chibicc's parser (parse.c: pointers / declarator /
+   abstract_declarator / type_suffix / func_params / array_dimensions) on the
+   token sequence: pointers are applied first; at "(" the inner declarator is
+   skipped with a dummy type, ")" is required, the suffix is applied, then the
+   inner declarator is re-parsed on the result.  With ParamFirst, a "(" that
+   is followed by a type name or ")" is left to type_suffix where no
+   identifier can be declared (type names, parameters).  A syntax error is a
+   position >= ErrPos.
+
+   One action per production added; invariant ParsesBack: parsing the
+   rendering gives back Type(s), for a declaration, a parameter and a type
+   name.                                                                     *)
 EXTENDS Integers, Sequences, TLC, Json, CSV, IOUtils, SequencesExt
 
-CONSTANTS MaxLen, Emit, Broken   \* Broken: suffix applied after the inner declarator (sensitivity control)
+CONSTANTS MaxLen,       \* derivations (productions other than "G")
+          MaxG,         \* pairs of parentheses
+          Emit,
+          Broken,       \* suffix applied after the inner declarator (sensitivity control)
+          ParamFirst    \* FALSE: "(" always opens a parenthesised declarator (the tree before fix-1; second control)
 
 Ops == {"P", "A2", "A3", "F"}
 IsArr(o) == o \in {"A2", "A3"}
-Tok(o) == CASE o = "A2" -> "[2]" [] o = "A3" -> "[3]" [] o = "F" -> "(void)"
+IsSfx(o) == o \in {"A2", "A3", "F"}
+Toks(o) == CASE o = "A2" -> <<"[2]">> [] o = "A3" -> <<"[3]">> [] o = "F" -> <<"(", "void", ")">>
 
-(* C constraints: no array of functions, no function returning array/function *)
+(* ---- Level A *)
+Type(s) == SelectSeq(s, LAMBDA o : o # "G")
+NumG(s) == Len(s) - Len(Type(s))
+(* the grammar: a suffix applies to a direct-declarator only *)
+WellFormed(s) == \A i \in 1..(Len(s) - 1) : ~(s[i] = "P" /\ IsSfx(s[i + 1]))
+(* C constraints on the type: no array of functions, no function returning array/function *)
 Valid(d) == \A i \in 1..(Len(d) - 1) :
               /\ ~(IsArr(d[i]) /\ d[i + 1] = "F")
               /\ ~(d[i] = "F" /\ (IsArr(d[i + 1]) \/ d[i + 1] = "F"))
+HasAbstract(s) == s = <<>> \/ s[1] # "G"
 
-(* ---- Level A: rendering and sizes *)
-Render(d, named) ==
-  FoldLeft(LAMBDA acc, o :
-             IF o = "P" THEN <<<<"*">> \o acc[1], TRUE>>
-             ELSE <<(IF acc[2] THEN <<"(">> \o acc[1] \o <<")">> ELSE acc[1]) \o <<Tok(o)>>, FALSE>>,
-           <<IF named THEN <<"x">> ELSE <<>>, FALSE>>, d)[1]
+Render(s, named) ==
+  FoldLeft(LAMBDA acc, o : IF o = "P" THEN <<"*">> \o acc
+                           ELSE IF o = "G" THEN <<"(">> \o acc \o <<")">>
+                           ELSE acc \o Toks(o),
+           IF named THEN <<"x">> ELSE <<>>, s)
+
 RECURSIVE SizeA(_)
 SizeA(d) == IF d = <<>> THEN 4                       \* base type int
             ELSE IF d[1] = "P" THEN 8
             ELSE IF d[1] = "A2" THEN 2 * SizeA(Tail(d))
             ELSE IF d[1] = "A3" THEN 3 * SizeA(Tail(d))
             ELSE -1                                   \* function: no size
-(* sizes of x, *x, **x, ... as far as dereferencing is allowed and yields an object *)
+RECURSIVE AlignA(_)
+AlignA(d) == IF d = <<>> THEN 4
+             ELSE IF d[1] = "P" THEN 8
+             ELSE IF IsArr(d[1]) THEN AlignA(Tail(d))
+             ELSE -1
+(* sizes of x, then of what each derivation leads to (dereference for a pointer or array, call for a function), down to int;
+   -1 where the expression is a function designator *)
 RECURSIVE Sizes(_)
-Sizes(d) == IF d # <<>> /\ d[1] = "F" THEN <<>>
-            ELSE <<SizeA(d)>> \o (IF d # <<>> /\ (d[1] = "P" \/ IsArr(d[1])) THEN Sizes(Tail(d)) ELSE <<>>)
+Sizes(d) == <<SizeA(d)>> \o (IF d = <<>> THEN <<>> ELSE Sizes(Tail(d)))
+(* struct { char c; T x; char e; }: offsets of x and e, size (psABI) *)
+Up(n, a) == ((n + a - 1) \div a) * a
+Member(d) == IF d # <<>> /\ d[1] = "F" THEN <<>>
+             ELSE LET a == AlignA(d) IN <<Up(1, a), Up(1, a) + SizeA(d), Up(Up(1, a) + SizeA(d) + 1, a)>>
 
 (* ---- Level I: the recursive-descent parser; types are derivation sequences, outermost first *)
-At(t, p) == IF p <= Len(t) THEN t[p] ELSE "<eof>"
+ErrPos == 1000
+At(t, p) == IF p >= 1 /\ p <= Len(t) THEN t[p] ELSE "<eof>"
+Skip(t, p, k) == IF At(t, p) = k THEN p + 1 ELSE ErrPos                   \* skip(tok, k)
 RECURSIVE Suffix(_, _, _)
 Suffix(t, p, ty) ==
-  IF At(t, p) = "(void)" THEN <<<<"F">> \o ty, p + 1>>                    \* func_params
+  IF At(t, p) = "("                                                        \* func_params: "void" ")" (returns at once)
+  THEN IF At(t, p + 1) = "void" /\ At(t, p + 2) = ")" THEN <<<<"F">> \o ty, p + 3>>
+       ELSE <<ty, ErrPos>>                                                 \* declspec: "typename expected"
   ELSE IF At(t, p) \in {"[2]", "[3]"}                                       \* array_dimensions
        THEN LET r == Suffix(t, p + 1, ty) IN <<<<IF At(t, p) = "[2]" THEN "A2" ELSE "A3">> \o r[1], r[2]>>
   ELSE <<ty, p>>
 RECURSIVE Ptrs(_, _, _)
 Ptrs(t, p, ty) == IF At(t, p) = "*" THEN Ptrs(t, p + 1, <<"P">> \o ty) ELSE <<ty, p>>
-RECURSIVE Decl(_, _, _)
-Decl(t, p0, ty0) ==
+(* is_typename(tok->next) || equal(tok->next, ")"): a parameter list follows *)
+ParamsAhead(t, p) == At(t, p + 1) \in {"void", ")"}
+(* mode: "decl" = declarator() for a declaration, "param" = declarator() for a parameter,
+         "type" = abstract_declarator() *)
+RECURSIVE Decl(_, _, _, _)
+Decl(t, p0, ty0, mode) ==
   LET pr == Ptrs(t, p0, ty0)
       ty == pr[1]
       p  == pr[2]
-  IN IF At(t, p) = "("
-     THEN LET skipped == Decl(t, p + 1, <<"dummy">>)       \* declarator(&tok, start->next, &dummy)
-              p2      == skipped[2] + 1                     \* skip(tok, ")")
+  IN IF At(t, p) = "(" /\ ~(ParamFirst /\ mode # "decl" /\ ParamsAhead(t, p))
+     THEN LET skipped == Decl(t, p + 1, <<"dummy">>, mode)   \* declarator(&tok, start->next, &dummy)
+              p2      == Skip(t, skipped[2], ")")
               sfx     == Suffix(t, p2, ty)
-              inner   == Decl(t, p + 1, IF Broken THEN ty ELSE sfx[1])
+              inner   == Decl(t, p + 1, IF Broken THEN ty ELSE sfx[1], mode)
           IN <<IF Broken THEN Suffix(t, p2, inner[1])[1] ELSE inner[1], sfx[2]>>
-     ELSE Suffix(t, IF At(t, p) = "x" THEN p + 1 ELSE p, ty)
+     ELSE Suffix(t, IF At(t, p) = "x" /\ mode # "type" THEN p + 1 ELSE p, ty)
 
-VARIABLES d
-Init == d = <<>>
-Derive(o) == /\ Len(d) < MaxLen
-             /\ Valid(Append(d, o))
-             /\ d' = Append(d, o)
-             /\ (Emit => CSVWrite("%1$s", <<ToJson([d |-> d', named |-> Render(d', TRUE), abstract |-> Render(d', FALSE),
-                                                     sizes |-> Sizes(d')])>>, IOEnv.OUT))
-Next == \E o \in Ops : Derive(o)
-Spec == Init /\ [][Next]_d
+VARIABLES s
+Init == s = <<>>
+Apply(o) == /\ IF o = "G" THEN NumG(s) < MaxG ELSE Len(Type(s)) < MaxLen
+            /\ WellFormed(Append(s, o))
+            /\ Valid(Type(Append(s, o)))
+            /\ s' = Append(s, o)
+            /\ (Emit => CSVWrite("%1$s", <<ToJson([s |-> s', d |-> Type(s'), g |-> NumG(s'), named |-> Render(s', TRUE),
+                                                     abstract |-> IF HasAbstract(s') THEN Render(s', FALSE) ELSE <<"-">>,
+                                                     sizes |-> Sizes(Type(s')), member |-> Member(Type(s'))])>>, IOEnv.OUT))
+Next == \E o \in Ops \cup {"G"} : Apply(o)
+Spec == Init /\ [][Next]_s
 
-ParsesBack == /\ Decl(Render(d, TRUE), 1, <<>>) = <<d, Len(Render(d, TRUE)) + 1>>
-              /\ Decl(Render(d, FALSE), 1, <<>>) = <<d, Len(Render(d, FALSE)) + 1>>
+Parses(t, mode) == Decl(t, 1, <<>>, mode) = <<Type(s), Len(t) + 1>>
+ParsesBack == /\ Parses(Render(s, TRUE), "decl")
+              /\ Parses(Render(s, TRUE), "param")
+              /\ HasAbstract(s) => Parses(Render(s, FALSE), "type") /\ Parses(Render(s, FALSE), "param")
 =============================================================================
